@@ -229,6 +229,13 @@ class ScribbleExec(O.Exec):
         self._after(op, held)
         return law
 
+    def op_mk_multi(self, op):
+        ends = self.gs(op["ends"])
+        e = C.MultiLink(vertices=ends)
+        self.w.add(op["new"], e)
+        self._after(op, {"ends": ends})
+        return e
+
     def op_adj_dict(self, op):
         from edgegraph.builder import adjlist
 
@@ -357,6 +364,8 @@ class C12(c05.C05):
         "immutable-refused",
         "read-after-scribble",
         "argument-passed-as-read-only-view",
+        "scribble-arg:ends",
+        "empty-whitelist",
     ]
 
     def make_config(self, rng):
@@ -369,7 +378,10 @@ class C12(c05.C05):
         cfg["weights"]["mk_vertex_c"] = rng.choice([1, 2])
         cfg["weights"]["mk_universe_c"] = rng.choice([1, 2])
         cfg["weights"]["mk_laws_c"] = rng.choice([1, 2])
-        cfg["multi"] = False
+        cfg["multi"] = rng.random() < 0.25
+        cfg["nmv"] = rng.randint(2, 3)
+        if cfg["multi"]:
+            cfg["weights"]["mk_multi_c"] = rng.choice([1, 2])
         return cfg
 
     def start(self, cfg):
@@ -415,6 +427,11 @@ class C12(c05.C05):
             return self._mk_universe_c(rng, cfg, st)
         if kind == "mk_laws_c":
             return self._mk_laws_c(rng, cfg, st)
+        if kind == "mk_multi_c":
+            op = st.gen.g_mk_multi(rng, st.view, st.namer)
+            if op is not None:
+                op["scribble"] = {"arg": "ends", "mut": self._mut(rng, st, LIST_MUTS)}
+            return op
         op = super()._mutation(rng, cfg, st, kind)
         if op is not None and op["op"] == "adj_dict" and rng.random() < 0.6:
             op["scribble"] = {"arg": "adjdict", "mut": self._mut(rng, st, DICT_MUTS)}
@@ -461,13 +478,15 @@ class C12(c05.C05):
             return None
         op = {"op": "mk_laws", "new": st.namer.new("L"), "kw": {}}
         spec = []
-        for _ in range(rng.randint(1, 3)):
+        for _ in range(rng.choice([0, 1, 1, 2, 3])):  # an empty whitelist is a whitelist too
             inner = [
                 [rng.choice(c19.WL_NAMES[:3]), rng.choice(c19.WL_NAMES[3:])]
-                for _ in range(rng.randint(1, 3))
+                for _ in range(rng.randint(0, 3))
             ]
             spec.append([rng.choice(c19.WL_NAMES[:3]), inner])
         op["wl"] = spec
+        if not spec:
+            st.stats["probe:empty-whitelist"] += 1
         r = rng.random()
         if r < 0.3:
             op["wl_as"] = "proxy"
